@@ -1,3 +1,139 @@
 package main
 
-func selftest(verif string) int { return 0 }
+import (
+	"fmt"
+	"go/types"
+	"path/filepath"
+	"strings"
+
+	"golang.org/x/tools/go/ssa"
+)
+
+// selftest runs each rule engine on /verif/fixtures/zvfixture, a tiny module with one instance
+// that must be discharged (…OK) and one that must be reported (…Bad) per engine. It guards against
+// an engine that silently stops firing (a rule matching nothing passes forever).
+func selftest(verif string) int {
+	minPackages = 1
+	defer func() { minPackages = 31 }()
+	w, err := Load(filepath.Join(verif, "fixtures", "zvfixture"), nil, nil)
+	if err != nil {
+		fmt.Println("SELFTEST ERROR", err)
+		return 2
+	}
+	pkg := "z/zvfixture"
+	fails := 0
+	expect := func(name string, got, want bool) {
+		status := "ok"
+		if got != want {
+			status = "FAIL"
+			fails++
+		}
+		fmt.Printf("selftest %-28s reported=%-5v expected=%-5v %s\n", name, got, want, status)
+	}
+	reported := func(c *Ctx) bool {
+		for _, o := range c.Obls {
+			if o.Verdict != "discharged" {
+				return true
+			}
+		}
+		return false
+	}
+	sub := func() *Ctx { return &Ctx{W: w, FnsSeen: map[string]bool{}, extra: map[string]any{}} }
+	fnOf := func(n string) *ssa.Function {
+		fn := w.Fn(n)
+		if fn == nil {
+			fmt.Println("SELFTEST ERROR fixture function missing:", n)
+			fails++
+		}
+		return fn
+	}
+	// R-CUT
+	for _, t := range []struct {
+		name string
+		bad  bool
+	}{{"CutOK", false}, {"CutBad", true}} {
+		if fn := fnOf(pkg + "." + t.name); fn != nil {
+			c := sub()
+			c.Cut(CutSpec{Rule: "R-CUT", Fn: fn, Label: "success only past check(x) == nil", Target: SuccessReturn(1, nil), Cut: IsNil(ResultOf(-1, pkg+".check"))})
+			expect("R-CUT "+t.name, reported(c), t.bad)
+		}
+	}
+	// R-BOUNDS
+	for _, t := range []struct {
+		name string
+		bad  bool
+	}{{"BoundsOK", false}, {"BoundsBad", true}, {"BoundsLoopOK", false}, {"BoundsLoopBad", true}} {
+		if fn := fnOf(pkg + "." + t.name); fn != nil {
+			c := sub()
+			n := c.BoundsObligations(fn, "R-BOUNDS", nil)
+			expect("R-BOUNDS "+t.name, reported(c) || n == 0, t.bad)
+		}
+	}
+	// R-LOOP
+	for _, t := range []struct {
+		name string
+		bad  bool
+	}{{"LoopOK", false}, {"LoopBad", true}} {
+		if fn := fnOf(pkg + "." + t.name); fn != nil {
+			bad := false
+			ls := natLoops(fn)
+			for _, l := range ls {
+				if !checkLoopProgress(l).ok {
+					bad = true
+				}
+			}
+			expect("R-LOOP "+t.name, bad || len(ls) == 0, t.bad)
+		}
+	}
+	// R-LOCK pairing
+	for _, t := range []struct {
+		name string
+		bad  bool
+	}{{"LockOK", false}, {"LockBad", true}} {
+		if fn := fnOf("(*" + pkg + ".S)." + t.name); fn != nil {
+			c := sub()
+			n := 0
+			for _, l := range lockSitesOf(fn) {
+				if l.dfr || l.kind != "Lock" {
+					continue
+				}
+				n++
+				id := l.id
+				release := func(in ssa.Instruction) bool {
+					cc := callCommon(in)
+					return cc != nil && syncLockKind(cc) == "Unlock" && len(cc.Args) > 0 && lockID(cc.Args[0]) == id
+				}
+				c.Cut(CutSpec{Rule: "R-LOCK", Fn: fn, Label: "released on every path", StartAfter: l.in, Target: func(in ssa.Instruction, _ resolver) bool { _, ok := in.(*ssa.Return); return ok }, Barrier: release, Cut: func(Fact) bool { return false }, MinTargets: -1})
+			}
+			expect("R-LOCK "+t.name, reported(c) || n == 0, t.bad)
+		}
+	}
+	// R-ORDER
+	for _, t := range []struct {
+		name string
+		bad  bool
+	}{{"OrderOK", false}, {"OrderBad", true}} {
+		if fn := fnOf(pkg + "." + t.name); fn != nil {
+			c := sub()
+			n := 0
+			for _, b := range fn.Blocks {
+				for _, in := range b.Instrs {
+					if rg, ok := in.(*ssa.Range); ok {
+						if _, isMap := rg.X.Type().Underlying().(*types.Map); isMap {
+							n++
+							c.mapRangeSorted(fn, rg, n)
+						}
+					}
+				}
+			}
+			expect("R-ORDER "+t.name, reported(c) || n == 0, t.bad)
+		}
+	}
+	if fails > 0 {
+		fmt.Printf("SELFTEST FAILED: %d engine fixtures gave the wrong verdict\n", fails)
+		return 2
+	}
+	fmt.Println("selftest: all engine fixtures gave the expected verdicts")
+	_ = strings.TrimSpace
+	return 0
+}
